@@ -68,7 +68,7 @@ __CPROVER_requires(REP_OK(rep) && 0 <= nr && nr < CAP && 0 <= nc && nc <= CAP &&
 __CPROVER_requires(FRESH_INTS(rowstat, nr + 1) && FRESH_INTS(colstat, nc) && bsize == DIM(rep, nr + 1, nc) && FRESH_INTS(bid, bsize))
 __CPROVER_requires(STATUS_OK(bstatus) && BOOL01(setup) && BOOL01(fact) && g_gone == gone && gone < 0)
 /* I(old): the descriptor has the old dimensions (given by the allocation sizes) and exactly nr+1 basic entries */
-__CPROVER_requires(VALID_DESC(rowstat[i]) && v_i == rowstat[i] && v_last == rowstat[nr])
+__CPROVER_requires(VALID_ALL(rowstat, nr + 1) && VALID_ALL(colstat, nc) && v_i == rowstat[i] && v_last == rowstat[nr])
 __CPROVER_requires(CNT(rowstat, nr + 1) + CNT(colstat, nc) == nr + 1)
 __CPROVER_requires(GHOST_IN(g_r, nr) && v_r == rowstat[g_r] && g_exp_r == (g_r == i ? v_last : v_r))
 __CPROVER_requires(GHOST_IN(g_c, nc) && (nc > 0 ==> (v_c == colstat[g_c] && g_exp_c == v_c)))
@@ -116,7 +116,7 @@ void w_removedCol(int i, int rep, int nr, int nc, int* rowstat, int* colstat, in
 __CPROVER_requires(REP_OK(rep) && 0 <= nr && nr <= CAP && 0 <= nc && nc < CAP && 0 <= i && i <= nc)
 __CPROVER_requires(FRESH_INTS(rowstat, nr) && FRESH_INTS(colstat, nc + 1) && bsize == DIM(rep, nr, nc + 1) && FRESH_INTS(bid, bsize))
 __CPROVER_requires(STATUS_OK(bstatus) && BOOL01(setup) && BOOL01(fact) && g_gone == gone && gone > 0)
-__CPROVER_requires(VALID_DESC(colstat[i]) && v_i == colstat[i] && v_last == colstat[nc])
+__CPROVER_requires(VALID_ALL(rowstat, nr) && VALID_ALL(colstat, nc + 1) && v_i == colstat[i] && v_last == colstat[nc])
 __CPROVER_requires(CNT(rowstat, nr) + CNT(colstat, nc + 1) == nr)
 __CPROVER_requires(GHOST_IN(g_c, nc) && v_c == colstat[g_c])
 __CPROVER_requires(GHOST_IN(g_r, nr) && (nr > 0 ==> v_r == rowstat[g_r]))
